@@ -935,6 +935,40 @@ class Exec(object):
             self.opno, self.last_kind, {k: self.gc[k] for k in ('every', 'phase', 'skip')},
             self.gc['forced'], self.gc['gcs'])
 
+    def oom_is_legit(self, need):
+        """
+        A statement/evaluation ended in Out of memory / Out of string space. Legitimate if the reference
+        model has less than `need` bytes free after collection. Otherwise ask the engine what it believes
+        to have free after a collection: if that disagrees with the reference accounting, that is the C10
+        finding (reported with the FRE signature) and the failure is its consequence; only if the engine
+        itself reports enough free space is the failure spurious.
+        """
+        m = self.m
+        if m.tight(need):
+            return True
+        v = self.ev('FRE("")')
+        if v is None:
+            return True
+        v = int(v)
+        fb = m.free_bounds()
+        if v < fb[0]:
+            self.fre_report(v, fb)
+            return True
+        return v < need
+
+    def fre_report(self, v, fb):
+        m = self.m
+        lo, hi, exact = fb
+        if exact and v != lo:
+            self.violate('C10', 'fre-after-collection:%s-than-reference:%s' % (
+                'less' if v < lo else 'more', 'after-failed-statement' if self.had_error else 'no-failed-statement'),
+                         'FRE("") = %d, reference %d = empty-state free %d - records %d - live string bytes %d; %s' % (
+                             v, lo, m.f0, m.records(), m.live()[0], self.history()))
+        elif not lo <= v <= hi:
+            self.violate('C10', 'fre-after-collection:outside-bounds:%s' % ('less' if v < lo else 'more'),
+                         'FRE("") = %d, reference bounds [%d, %d] (some strings live in program text); %s' % (
+                             v, lo, hi, self.history()))
+
     # -- setup ------------------------------------------------------------
 
     def setup(self):
@@ -1077,7 +1111,7 @@ class Exec(object):
             self.resync(plan, failed=True)
             return
         if err in (7, 14):
-            if m.tight(plan.need):
+            if self.oom_is_legit(plan.need):
                 run.probe('oom-legit')
                 if kind == 'field':
                     # a FIELD list that failed part-way: not modelled
@@ -1152,7 +1186,8 @@ class Exec(object):
         run.state(*(self._state + ('ok' if v is not None else 'err',)))
         if v is None:
             # evaluate() reports errors on the screen only: the code is not visible here
-            if not c.errs and not c.opt and not m.tight(plan.need):
+            self.had_error = True
+            if not c.errs and not c.opt and not self.oom_is_legit(plan.need):
                 self.violate(self.prop, 'probe:unexpected-error', 'evaluating %r failed, model expects %r; %s' % (
                     plan.stmt, plan.value, self.history()))
                 self.stop = True
@@ -1248,20 +1283,12 @@ class Exec(object):
             if v is None:
                 if not m.tight(8):
                     self.violate('C10', 'fre:error', 'FRE("") failed; model bounds %r; %s' % (fb, self.history()))
+                self.had_error = True
                 return
             v = int(v)
             run.probe('fre-after-collection-checked')
             if fb is not None:
-                lo, hi, exact = fb
-                if exact and v != lo:
-                    self.violate('C10', 'fre-after-collection:%s-than-reference:%s' % (
-                        'less' if v < lo else 'more', 'after-failed-statement' if self.had_error else 'no-failed-statement'),
-                                 'FRE("") = %d, reference %d = empty-state free %d - records %d - live string bytes %d; %s' % (
-                                     v, lo, m.f0, m.records(), m.live()[0], self.history()))
-                elif not lo <= v <= hi:
-                    self.violate('C10', 'fre-after-collection:outside-bounds:%s' % ('less' if v < lo else 'more'),
-                                 'FRE("") = %d, reference bounds [%d, %d] (some strings live in program text); %s' % (
-                                     v, lo, hi, self.history()))
+                self.fre_report(v, fb)
             v2 = self.ev('FRE(0)')
             if v2 is not None and int(v2) != v:
                 self.violate('C10', 'fre0-differs-right-after-collection', 'FRE("") = %d then FRE(0) = %d; %s' % (
@@ -1361,7 +1388,8 @@ class Exec(object):
                 pos += len(chunk)
                 continue
             need = sum(2 * len(c[2][1]) for c in chunk) + 48 if strs else 0
-            if r.err in (7, 14) and strs and m.tight(need):
+            self.had_error = True
+            if r.err in (7, 14) and strs and self.oom_is_legit(need):
                 # a prefix of the chunk was assigned
                 run.probe('oom-legit')
                 got = d.get(b(name + '('))
@@ -1448,9 +1476,9 @@ class Exec(object):
                 seen.add(key)
                 uniq.append(r)
         if uniq:
-            self.peek_refs(uniq)
+            self.peek_refs(uniq, complete=bool(sweep))
 
-    def peek_refs(self, refs):
+    def peek_refs(self, refs, complete=False):
         m, run = self.m, self.run
         vs, as_, ae, top = self.peek16(0x358), self.peek16(0x35A), self.peek16(0x35C), self.peek16(0x2C)
         if None in (vs, as_, ae, top):
@@ -1482,6 +1510,8 @@ class Exec(object):
                 if b0 < a1:
                     self.violate('C11', 'overlap:%s' % what, '%s occupies [%d,%d) and %s occupies [%d,%d); %s' % (
                         n0, a0, a1, n1, b0, b1, self.history()))
+        if complete:
+            self.layout_checks(later, vs, as_, ae, order)
         for item in later:
             self.peek_second(*item)
         run.probe('peek-sweeps')
@@ -1516,6 +1546,41 @@ class Exec(object):
         if sig == '$':
             self.peek_string(r, raw, where, ae, top, sranges)
 
+    def layout_checks(self, seen, vs, as_, ae, order):
+        """
+        Documented record layout ([size][c1][c2][n more][more...] then the value; arrays add
+        [2 bytes length][rank][2 bytes per dimension] before the data): the value is the last field of a
+        record and the areas are packed, so the highest value end of all scalars is the start of the array
+        area and the highest element end is the end of the array area; the byte at the start of the
+        record is the value size and the next one the first letter of the name.
+        `seen` holds every scalar and the last element of every array (complete sweeps only).
+        """
+        m = self.m
+        hist = self.history()
+        ends_s = [p + SIZES[r['n'][-1]] for r, p, _, _ in seen if r['i'] is None]
+        if m.sc and len(ends_s) == len(m.sc) and max(ends_s) != as_:
+            self.violate('C11', 'area-not-packed:scalars', 'the last scalar value ends at %d, the array area starts at %d '
+                         '(start of variables %d); %s' % (max(ends_s), as_, vs, hist))
+        ends_a = [p + SIZES[r['n'][-1]] for r, p, _, _ in seen if r['i'] is not None and list(r['i']) == list(m.ar[r['n']]['d'])]
+        if m.ar and len(ends_a) == len(m.ar) and max(ends_a) != ae:
+            self.violate('C11', 'area-not-packed:arrays', 'the last array element ends at %d, the array area ends at %d '
+                         '(starts at %d); %s' % (max(ends_a), ae, as_, hist))
+        for r, p, _, where in seen:
+            name = r['n']
+            hdr = 4 + max(0, len(name) - 3)
+            if r['i'] is None:
+                start = p - hdr
+            elif list(r['i']) == [m.base] * len(r['i']):
+                start = p - (3 + 2 * len(r['i'])) - hdr
+            else:
+                continue
+            got = self.peekn(start, 2)
+            want = bytes([SIZES[name[-1]], ord(name[0])])
+            if got != want:
+                self.violate('C11', 'peek-mismatch:%s:record-header' % where,
+                             'record of %s should start at %d with size byte and first letter %r, PEEK gives %r; %s' % (
+                                 ref_txt(r), start, want, got, hist))
+
     def peek_second(self, r, p, raw, where):
         m = self.m
         name = r['n']
@@ -1523,18 +1588,19 @@ class Exec(object):
         sig = name[-1]
         size = SIZES[sig]
         hist = self.history()
-        tight = m.tight(64)
         vps = self.ev('VARPTR$(%s)' % txt)
         want_vps = bytes([size]) + struct.pack('<H', p)
         if vps is None:
-            if not tight:
+            self.had_error = True
+            if not self.oom_is_legit(64):
                 self.violate('C11', 'varptr$-error', 'VARPTR$(%s) failed; %s' % (txt, hist))
         elif vps != want_vps:
             self.violate('C11', 'varptr$-mismatch', 'VARPTR$(%s) = %r, VARPTR gives %r; %s' % (txt, vps, want_vps, hist))
         if sig != '$':
             mk = self.ev('%s(%s)' % (MK[sig].decode(), txt))
             if mk is None:
-                if not tight:
+                self.had_error = True
+                if not self.oom_is_legit(64):
                     self.violate('C11', 'mk$-error', '%s(%s) failed; %s' % (MK[sig].decode(), txt, hist))
             elif raw != mk:
                 self.violate('C11', 'peek-mismatch:%s:number' % where,
